@@ -188,6 +188,50 @@ def seq_shards(prop, tier, total_cases, binary="seq", config="plain", shards=Non
     return procs
 
 
+def run_c19(tier):
+    """Generate declarations, compile them against /repo, run the drivers natively and the
+    auto-flush ones under valgrind memcheck. Batches are sequential (one crate directory)."""
+    q = tier == "quick"
+    batches = [(SEED * 100 + b, 60 if q else 300) for b in range(1 if q else 4)]
+    gen_dir = os.path.join(HARNESS, "staticgen", "src", "generated")
+    results = []
+    for b, (gseed, count) in enumerate(batches):
+        r = subprocess.run([sys.executable, os.path.join(ROOT, "tools", "gen_static.py"), str(gseed), str(count), gen_dir], capture_output=True, text=True)
+        if r.returncode != 0:
+            raise Inconclusive("generator failed: %s" % r.stderr[-300:])
+        _built.discard(("plain", "staticgen", ()))
+        try:
+            build("plain", "staticgen")
+        except Inconclusive as e:
+            # the generated programs are valid by construction: a compile error means an accessor the
+            # declaration promises does not exist (or the harness broke); report what rustc said
+            log = os.path.join(LOGS, "build-plain-staticgen.log")
+            txt = open(log).read() if os.path.exists(log) else ""
+            first = next((l for l in txt.splitlines() if l.startswith("error")), "")
+            if "generated" in txt and first:
+                p = Proc("C19-static-%d" % b, [], None)
+                part = {"property": "C19", "engine": "static", "seed": gseed, "evaluations": 0, "distinct": [], "rule": "", "counters": {}, "samples": [],
+                        "violations": [{"signature": "generated-program-does-not-compile:generated-program", "rule": "generated-program-does-not-compile", "explanation": "a declaration from the documented grammar does not compile: %s (log %s)" % (first, log), "replay": {"property": "C19", "engine": "static", "seed": gseed, "count": count}}], "inconclusive": None}
+                results.append(dict(proc=p, rc=1, part=part, wall=0.0, error=None, log=log, stderr=""))
+                continue
+            raise e
+        tag = "static-%d" % b
+        native = Proc("C19-%s" % tag, [binpath("plain", "staticgen"), "--seed", str(gseed), "--out", part_path("C19", tag)], part_path("C19", tag))
+        res = run_proc(native)
+        results.append(res)
+        tagv = "memcheck-%d" % b
+        vg = Proc("C19-%s" % tagv, ["valgrind", "--error-exitcode=9", "-q", "--num-callers=30", binpath("plain", "staticgen"), "--seed", str(gseed), "--only-auto-flush", "--out", part_path("C19", tagv)], part_path("C19", tagv), timeout=3600)
+        resv = run_proc(vg)
+        if resv["rc"] == 9:
+            part = resv["part"] or {"property": "C19", "engine": "static-memcheck", "seed": gseed, "evaluations": 0, "distinct": [], "rule": "", "counters": {}, "samples": [], "violations": [], "inconclusive": None}
+            first = next((l for l in (resv["stderr"] or "").splitlines() if "Invalid" in l or "uninitialised" in l or "Mismatched" in l), "memcheck reported errors")
+            part.setdefault("violations", []).append({"signature": "memcheck-error-in-auto-flush-accessors:generated-program", "rule": "memcheck", "explanation": "valgrind memcheck: %s (log %s)" % (first.strip(), resv["log"]), "replay": {"property": "C19", "engine": "static", "seed": gseed, "count": count, "memcheck": True}})
+            resv["part"] = part
+            resv["rc"] = 1
+        results.append(resv)
+    return results
+
+
 # --------------------------------------------------------------------------
 # per-property plans: tier -> list of process lists (all run in one pool)
 # --------------------------------------------------------------------------
@@ -197,6 +241,18 @@ def plan(prop, tier):
         return conc_e2(prop, tier, 6000 if q else 300_000) + conc_e1(prop, tier, 4 if q else 60) + conc_miri(prop, tier, 8 if q else 16, 3 if q else 24)
     if prop in ("C02", "C03"):
         return conc_e2(prop, tier, 6000 if q else 300_000) + conc_e1(prop, tier, 5 if q else 60) + conc_miri(prop, tier, 8 if q else 16, 2 if q else 16)
+    if prop == "C16":
+        build("plain", "xbuild", ("--features", "pb"))
+        build("nopb", "xbuild")
+        total = 4000 if q else 400_000
+        shards = min(JOBS, max(1, total // 250))
+        per = (total + shards - 1) // shards
+        procs = []
+        for i in range(shards):
+            out = part_path(prop, "xbuild-%d" % i)
+            cmd = [sys.executable, os.path.join(ROOT, "tools", "c16_shard.py"), binpath("plain", "xbuild"), binpath("nopb", "xbuild"), str(SEED), str(i * per), str(per), out]
+            procs.append(Proc("%s-xbuild-%d" % (prop, i), cmd, out))
+        return procs
     if prop in SEQ_CASES:
         qc, tc = SEQ_CASES[prop]
         procs = seq_shards(prop, tier, qc if q else tc)
@@ -256,6 +312,9 @@ ASSUMPTIONS = {
     ],
     "e2": ["E2: the library's shared state is reached only through the verif_sync shim (atomics, Mutex, RwLock); the explored interleavings are sequentially consistent"],
     "e1": ["E1: real x86-64 hardware (TSO); client-boundary stamps come from one SeqCst ticket counter"],
+    "static": ["C19: value identifiers avoid the macro expansion's own locals (a value literally named `x` fails to compile in >=2-label auto-flush declarations: macro hygiene, recorded in DESIGN.md)", "Miri cannot run the auto-flush expansion (it uses MaybeUninit::uninit().assume_init()); valgrind memcheck watches those accessors instead"],
+    "static-memcheck": [],
+    "xbuild": ["C16: the two builds run the same seeded, clock-free, single-threaded scenario; error *messages* (which embed the Debug form of the model structs) are not compared"],
     "seq": ["sequential monitors: reference models are written from the property statements; 64-bit FNV collisions between unrelated inputs are outside the statements"],
     "miri": ["Miri: weak-memory emulation and data-race detection as implemented by the installed nightly; -Zmiri-permissive-provenance because parking_lot casts integers to pointers"],
 }
@@ -292,8 +351,11 @@ def check(prop, tier):
     inconclusive = []
     results = []
     try:
-        procs = plan(prop, tier)
-        results = run_all(procs)
+        if prop == "C19":
+            results = run_c19(tier)
+        else:
+            procs = plan(prop, tier)
+            results = run_all(procs)
     except Inconclusive as e:
         inconclusive.append(str(e))
 
@@ -445,7 +507,25 @@ def replay(path):
             cmd += ["--secs", "5"]
         rc = subprocess.run(cmd, env=ENV).returncode
         return 1 if rc == 1 else 0
-    if eng in ("seq", "xbuild", "static"):
+    if eng == "xbuild":
+        build("plain", "xbuild", ("--features", "pb"))
+        build("nopb", "xbuild")
+        out = os.path.join(PARTS, "C16.replay.json")
+        rc = subprocess.run([sys.executable, os.path.join(ROOT, "tools", "c16_shard.py"), binpath("plain", "xbuild"), binpath("nopb", "xbuild"), str(r["seed"]), str(r["case"]), "1", out]).returncode
+        if os.path.exists(out):
+            for v in json.load(open(out)).get("violations", []):
+                print(v["explanation"])
+        return 1 if rc == 1 else 0
+    if eng == "static":
+        gen_dir = os.path.join(HARNESS, "staticgen", "src", "generated")
+        subprocess.run([sys.executable, os.path.join(ROOT, "tools", "gen_static.py"), str(r["seed"]), str(max(r.get("count", 0), r.get("program", 0) + 1, 60)), gen_dir], check=True)
+        build("plain", "staticgen")
+        cmd = [binpath("plain", "staticgen"), "--seed", str(r["seed"])]
+        if r.get("memcheck"):
+            cmd = ["valgrind", "--error-exitcode=9", "-q"] + cmd + ["--only-auto-flush"]
+        rc = subprocess.run(cmd, env=ENV).returncode
+        return 1 if rc in (1, 9) else 0
+    if eng == "seq":
         return replay_seq(prop, r)
     print("do not know how to replay engine %r; the recorded case is in the file" % eng)
     return 2
@@ -466,6 +546,10 @@ def setup():
         build("hook", "conc")
         build("plain", "conc")
         build("plain", "seq")
+        build("plain", "xbuild", ("--features", "pb"))
+        build("nopb", "xbuild")
+        subprocess.run([sys.executable, os.path.join(ROOT, "tools", "gen_static.py"), "1", "4", os.path.join(HARNESS, "staticgen", "src", "generated")], check=True)
+        build("plain", "staticgen")
         subprocess.run(["cargo", "+nightly", "miri", "run", "-p", "conc", "--offline", "--", "C01", "--engine", "native", "--cases", "0"], cwd=HARNESS, env=miri_env(0), capture_output=True, text=True)
     except Inconclusive as e:
         print("setup failed: %s" % e)
